@@ -578,6 +578,7 @@ class NDNApp:
             self._remove_pending(future, node_name, node)
             raise types.InterestTimeout()
         except aio.CancelledError:
+            self._remove_pending(future, node_name, node)
             raise types.InterestCanceled()
         # ValidationError, InterestNack are passed to the parent caller
         return data_name, content, pkt_context
